@@ -429,11 +429,41 @@ func (lk *Lookup) orCall(e ast.Expr, st lkState, ret *ast.ReturnStmt) bool {
 			}
 			continue
 		}
+		// fmt.Sprintf with literal text in its format is never empty: chosen for good
+		if sc, ok := ast.Unparen(a).(*ast.CallExpr); ok && IsPkgFunc(StaticCallee(lk.Info, sc), "fmt", "Sprintf") && len(sc.Args) >= 1 {
+			if f, ok := StringConst(lk.Info, sc.Args[0]); ok {
+				if stripVerbs(f) != "" {
+					add(cond, a)
+					return true
+				}
+			}
+		}
 		c := lk.unknown(a)
 		add(And(cond, c), a)
 		cond = And(cond, Not(c))
 	}
 	return true
+}
+
+// stripVerbs removes the fmt verbs from a format: what is left is printed literally.
+func stripVerbs(f string) string {
+	var b strings.Builder
+	rs := []rune(f)
+	for i := 0; i < len(rs); i++ {
+		if rs[i] != '%' {
+			b.WriteRune(rs[i])
+			continue
+		}
+		i++
+		if i < len(rs) && rs[i] == '%' {
+			b.WriteRune('%')
+			continue
+		}
+		for i < len(rs) && !((rs[i] >= 'a' && rs[i] <= 'z') || (rs[i] >= 'A' && rs[i] <= 'Z')) {
+			i++
+		}
+	}
+	return b.String()
 }
 
 func (lk *Lookup) objOf(id *ast.Ident) types.Object {
@@ -700,6 +730,31 @@ func (lk *Lookup) assign(as *ast.AssignStmt, st lkState) (lkState, bool) {
 			continue
 		}
 		o := lk.objOf(id)
+		// `names := Table`: a local alias of a package-level table
+		if as.Tok == token.DEFINE && lk.Info.Defs[id] != nil {
+			var rid *ast.Ident
+			switch x := ast.Unparen(as.Rhs[i]).(type) {
+			case *ast.Ident:
+				rid = x
+			case *ast.SelectorExpr:
+				rid = x.Sel
+			}
+			if rid != nil {
+				if v, _ := lk.Info.Uses[rid].(*types.Var); v != nil {
+					m := lk.mapAlias[v]
+					if m == nil {
+						m = pkgLevelMap(v)
+					}
+					if _, once := SingleDefs(lk.Info, lk.fd.Body)[o]; m != nil && once {
+						if lk.mapAlias == nil {
+							lk.mapAlias = map[types.Object]*types.Var{}
+						}
+						lk.mapAlias[o] = m
+						continue
+					}
+				}
+			}
+		}
 		switch {
 		case as.Tok == token.DEFINE && lk.Info.Defs[id] != nil && lk.isRecv(as.Rhs[i]):
 			if lk.keyAlias == nil {
